@@ -69,6 +69,7 @@ def observe(conn, log, sh, stmt, mname, nocache=False):
     o["rows"] = sorted(rows, key=repr)
     o["rc"] = r["rc"]
     o["lk"] = r["lk"]
+    o["tv"] = r["tv"]
     return o
 
 
@@ -83,7 +84,7 @@ def compare_with_spec(o, f, sh, hit=None, hit2=None):
         return bad
     if o["binds"] != [None if x == -1 else x for x in f["binds"]]:
         bad.append(("binds", "bound values %r, spec %r" % (o["binds"], f["binds"])))
-    ordered = sh["d"] == "limit"
+    ordered = sh["d"] == "limit" or sh["c"] in ("lchain3", "lchain4")
     got = o["ids"] if ordered else sorted(o["ids"])
     if got != list(f["ids"]):
         bad.append(("ids", "first-column ids %r, spec %r" % (got, f["ids"])))
@@ -91,6 +92,8 @@ def compare_with_spec(o, f, sh, hit=None, hit2=None):
         bad.append(("ids2", "partner ids %r, spec %r" % (o["ids2"], f["ids2"])))
     if f.get("lk", "-") != "-" and o["lk"] != f["lk"]:
         bad.append(("lk", "row lookup by the statement's column object: %s, spec %s" % (o["lk"], f["lk"])))
+    if f.get("tv", "-") != "-" and o["tv"] != f["tv"]:
+        bad.append(("tv", "class of the typed result values: %s, spec %s" % (o["tv"], f["tv"])))
     if f["rc"] >= 0 and o["rc"] != f["rc"]:
         bad.append(("rc", "rowcount %r, spec %r" % (o["rc"], f["rc"])))
     if f["sec"] and o["sec"] != sorted(f["sec"][0]):
@@ -109,7 +112,7 @@ def compare_obs(a, b, what):
         return [("out", "%s: outcome %s vs %s" % (what, a["out"], b["out"]))]
     if a["out"] != "ok":
         return bad
-    for k in ("sql", "binds", "sec_sql", "sec", "rows", "rc", "lk"):
+    for k in ("sql", "binds", "sec_sql", "sec", "rows", "rc", "lk", "tv"):
         if a.get(k) != b.get(k):
             bad.append((k, "%s: %s differs: %r vs %r" % (what, k, a.get(k), b.get(k))))
     return bad
@@ -200,24 +203,27 @@ class TableChecker:
             if ext != [[None if y == -1 else y for y in x] for x in c["ex"]]:
                 out.append(("calib", "extract", "extracted parameters %r, spec %r" % (ext, c["ex"])))
             if mname == "none":
-                types = tuple(type(bp.type).__name__ for bp in ck.bindparams)
+                types = tuple(repr(bp.type) for bp in ck.bindparams)
                 prev = self.keys.get(ck.key)
                 if prev is None:
-                    self.keys[ck.key] = (name, p, c["key"], o["sql"], types, f.get("lk", "-"))
+                    self.keys[ck.key] = (name, p, c["key"], o["sql"], types, f.get("lk", "-"), f.get("tv", "-"))
                 else:
                     same_spec_key = prev[0] == name and prev[2] == c["key"]
                     # IN lists are expanded after compilation: compare the text up to the expansion
                     lk = f.get("lk", "-")
                     if (not same_spec_key) and (prev[3] != o["sql"] or prev[4] != types):
-                        out.append(("key", "collision", "equal cache keys for %s/V%d and %s/V%d but SQL %r vs %r" % (
-                            prev[0], prev[1], name, p, prev[3], o["sql"])))
+                        out.append(("key", "collision", "equal cache keys for %s/V%d and %s/V%d but SQL %r vs %r, bind types %s vs %s" % (
+                            prev[0], prev[1], name, p, prev[3], o["sql"], list(prev[4]), list(types))))
+                    elif (not same_spec_key) and "-" not in (f.get("tv", "-"), prev[6]) and prev[6] != f.get("tv", "-"):
+                        out.append(("key", "collision", "equal cache keys for %s/V%d and %s/V%d (and equal SQL) but the compiled forms process "
+                                    "result values differently: %s vs %s" % (prev[0], prev[1], name, p, prev[6], f.get("tv"))))
                     elif (not same_spec_key) and "-" not in (lk, prev[5]) and prev[5] != lk:
                         out.append(("key", "collision", "equal cache keys for %s/V%d and %s/V%d (and equal SQL) but the compiled forms match "
                                     "result columns differently: row lookup %s vs %s" % (prev[0], prev[1], name, p, prev[5], lk)))
                     elif same_spec_key and prev[4] != types:
                         out.append(("key", "types", "equal cache keys, different bind types %r vs %r" % (prev[4], types)))
         # literal-rendered string as an independent oracle for the rows
-        if sh["k"] not in ("orm", "ddl", "txt") and not sc.is_orm(sh):
+        if sh["k"] not in ("orm", "ddl", "txt", "typ") and not sc.is_orm(sh):
             try:
                 lsql, lrows = sc.run_literal(E.pconn, sh, stmt, sc.MAPS[mname])
                 if sh["k"] in ("sel", "lam") or sh["o"] == "ret":
